@@ -262,7 +262,17 @@ func cmdCheck(args []string) {
 	var underContract []string
 	trusted := map[string]bool{}
 	inlined := map[string]bool{}
-	for _, name := range ps.Functions {
+	// the functions the property lists, followed by the closure of the contracts their proofs call: a caller is checked
+	// against its callees' contracts, so those contracts are obligations of this property too (a change that breaks a
+	// callee's postcondition is then reported here, not only under the property that lists the callee)
+	queue := append([]string(nil), ps.Functions...)
+	queued := map[string]bool{}
+	for _, n := range queue {
+		queued[n] = true
+	}
+	var dependencies []string
+	for qi := 0; qi < len(queue); qi++ {
+		name := queue[qi]
 		k := strings.Index(name, ".")
 		pkg, key := name[:k], name[k+1:]
 		pc := V.contractsByName[pkg]
@@ -280,6 +290,10 @@ func cmdCheck(args []string) {
 		}
 		fi := V.funcInfoForContract(pkg, key, fct)
 		if fi == nil {
+			if isDep(dependencies, name) {
+				assumptions["contract of "+name+" (no body in the loaded packages): assumed"] = true
+				continue
+			}
 			engineErrs[name] = "function under contract no longer exists in the working tree"
 			continue
 		}
@@ -303,6 +317,10 @@ func cmdCheck(args []string) {
 		for _, c := range res.Callees {
 			if strings.HasPrefix(c, "stdlib.") {
 				assumptions["assumed contract of dependency: "+strings.TrimPrefix(c, "stdlib.")] = true
+			} else if !strings.HasPrefix(c, "lemma ") && !queued[c] {
+				queued[c] = true
+				queue = append(queue, c)
+				dependencies = append(dependencies, c)
 			}
 		}
 		for _, w := range res.WeakFrames {
@@ -492,6 +510,7 @@ func cmdCheck(args []string) {
 		"checker_cmd":              fmt.Sprintf("/verif/engine/govc check -prop %s -tier %s  (VCs generated from %s, discharged by z3-new/cvc5/z3)", *prop, *tier, *repo),
 		"trusted_base":             tl,
 		"functions_under_contract": underContract,
+		"of_which_callee_contracts": dependencies,
 		"discharged_by_backend":    bySolver,
 		"solver_time_s":            round3(solverTime),
 		"load_s":                   round3(loadS),
@@ -520,16 +539,34 @@ func cmdCheck(args []string) {
 	writeJSON(filepath.Join(*verif, "evidence", *prop+".json"), ev)
 	fmt.Printf("govc: property %s tier %s: %d functions, %d obligations, %d discharged, %d violations, %d known findings, %.1fs\n",
 		*prop, *tier, len(underContract), len(all), discharged, violations, len(knownLines), time.Since(t0).Seconds())
+	// os.Exit skips the deferred removal of the scratch directory: remove it here on the non-zero exits
+	cleanup := func() {
+		if *work == "" {
+			os.RemoveAll(wd)
+		}
+	}
 	if toolTrouble {
+		cleanup()
 		os.Exit(2)
 	}
 	if violations > 0 {
+		cleanup()
 		os.Exit(1)
 	}
 	if len(all) == 0 {
 		fmt.Println("TOOL-TROUBLE: no obligations were generated (vacuity guard)")
+		cleanup()
 		os.Exit(2)
 	}
+}
+
+func isDep(deps []string, name string) bool {
+	for _, d := range deps {
+		if d == name {
+			return true
+		}
+	}
+	return false
 }
 
 func matchKnown(known []KnownFinding, prop, obl string) *KnownFinding {
